@@ -566,8 +566,119 @@ for _i, _cfg in enumerate([
     W12.append(_w)
 
 
+_W13_SDL = """
+enum Alpha {
+  A1
+  A2
+}
+
+enum Beta {
+  B1
+}
+
+enum Gamma {
+  G1
+}
+
+enum Delta {
+  D1
+  D2
+}
+
+enum Epsilon {
+  E1
+}
+
+enum NeverUsed {
+  U1
+}
+
+input ThingFilter {
+  kind: Delta
+  nested: NestedFilter
+}
+
+input NestedFilter {
+  eps: Epsilon = E1
+  other: OtherFilter
+}
+
+input OtherFilter {
+  n: Int
+}
+
+input UnusedInput {
+  x: NeverUsed
+}
+
+type Thing {
+  id: ID!
+  alpha: Alpha
+  beta: Beta!
+  gamma: [Gamma!]
+  delta: Delta
+  eps: Epsilon
+  other: Thing
+}
+
+type Query {
+  thing(filter: ThingFilter): Thing
+  things(kind: Delta, eps: [Epsilon!]): [Thing!]!
+}
+"""
+_W13_Q = """
+query One($filter: ThingFilter) {
+  thing(filter: $filter) {
+    ...Everything
+  }
+}
+
+query Many($kind: Delta) {
+  things(kind: $kind) {
+    id
+    other {
+      ...FGamma
+      ...FBeta
+    }
+  }
+}
+
+fragment Everything on Thing {
+  id
+  ...FDelta
+  ...FAlpha
+  ...FGamma
+  ...FBeta
+  ...FEps
+}
+
+fragment FAlpha on Thing {
+  alpha
+}
+
+fragment FBeta on Thing {
+  beta
+}
+
+fragment FGamma on Thing {
+  gamma
+}
+
+fragment FDelta on Thing {
+  delta
+}
+
+fragment FEps on Thing {
+  eps
+}
+"""
+W13 = [_world("W13-used-enums-and-inputs-only", _W13_SDL, _W13_Q, config={"include_all_enums": False, "include_all_inputs": False}),
+       _world("W13b-used-enums-only-shorter-results", _W13_SDL, _W13_Q,
+              config={"include_all_enums": False, "plugins": [PLUGINS[0], PLUGINS[2]]})]
+
+
 def all_worlds() -> List[dict]:
-    return [W1, W2, W2b, W3, W4, W5, W7, W8, W9] + W10 + W11 + W12
+    return [W1, W2, W2b, W3, W4, W5, W7, W8, W9] + W10 + W11 + W12 + W13
 
 
 def by_id(wid: str) -> dict:
